@@ -346,13 +346,20 @@ impl<'a> YamlEmitter<'a> {
                     write!(self.writer, ":")?;
                     self.emit_val(true, v)?;
                 } else {
-                    // An implicit key has to fit on one line: no literal style for it.
-                    let multiline_strings = std::mem::replace(&mut self.multiline_strings, false);
-                    let emitted = self.emit_node(k);
-                    self.multiline_strings = multiline_strings;
-                    emitted?;
-                    write!(self.writer, ":")?;
-                    self.emit_val(false, v)?;
+                    // An implicit key has to fit on one line (no literal style for it) and within
+                    // 1024 characters: a longer one is written in the explicit `? key` form.
+                    let mut key = String::new();
+                    YamlEmitter::new(&mut key).emit_node(k)?;
+                    if key.chars().count() > 1000 {
+                        write!(self.writer, "? {key}")?;
+                        writeln!(self.writer)?;
+                        self.write_indent()?;
+                        write!(self.writer, ":")?;
+                        self.emit_val(true, v)?;
+                    } else {
+                        write!(self.writer, "{key}:")?;
+                        self.emit_val(false, v)?;
+                    }
                 }
             }
             self.level -= 1;
